@@ -7,3 +7,6 @@ def run(rep, tier, seed):
                                         'ops': ['self', 'remove', 'donor', 'slice', 'accessors'], 'norm': True})
     sec['native_entry'] = ('b_edit', 'replay')
     rep.bounded(sec)
+    sec = native.run('b_raw', 'main', {'props': ['C02'], 'tier': tier, 'seed': seed, 'ops': ['offset']})
+    sec['native_entry'] = ('b_raw', 'replay')
+    rep.bounded(sec)
